@@ -35,14 +35,17 @@ def make_set(cls, src, w, fields, view=False):
     kw = dict(x=np.arange(2 * N, dtype=float).reshape(N, 2) / 7 + 0.1, xp=xp, dtype=ns.native_dtype(src, w), parameters=["a", "b"])
     if fields == "all":
         kw.update(log_likelihood=np.arange(N) / 3, log_prior=np.arange(N) / 5 + 1, log_q=np.arange(N) / 9 + 2)
-    elif fields == "some":
+    elif fields in ("some", "some+floats"):
         kw.update(log_likelihood=np.arange(N) / 3)
     # attached evidence: an exact zero in half of the cells (log Z = 0 +- 0 is a legitimate value, not "absent")
     zero = (NSS.index(src) + WS.index(w) + len(fields)) % 2 == 0
     # (non-zero values are not representable in float32: a detour through single precision is visible in a float64 set; they are
     #  attached as 0-d arrays of the set's namespace and width, the way the samplers attach them)
     ev = (0.0, 0.0) if zero else (1.2345678901234567, 0.12345678901234568)
-    if not zero and (NSS.index(src) + len(fields)) % 2 == 0:
+    if fields == "some+floats":
+        # the evidence as plain Python floats (supplied by the user that way; what an HDF5 scalar reloads as), never zero
+        zero, ev = False, (-12.345678901234567, 0.12345678901234568)
+    elif not zero and (NSS.index(src) + len(fields)) % 2 == 0:
         ev = tuple(xp.asarray(v, dtype=ns.native_dtype(src, w)) for v in ev)
     if cls == "smc":
         kw.update(beta=0.0 if zero else 0.5, log_evidence=ev[0], log_evidence_error=ev[1])
@@ -192,6 +195,13 @@ def check_sampler_precision(chk, quick):
                     a = np.asarray(ns.to_np(v), dtype=np.float64)
                     if a.size and np.all(a.astype(np.float32).astype(np.float64) == a):
                         bad.append(f"{name}.{f}: labelled float64 but every value is float32-representable (rounded through float32)")
+            # the set-level values attached to a returned population: an array / tensor has the requested precision, and in double
+            # precision the evidence is the double-precision sum of the recorded ratios (not a sum rounded through float32)
+            for f in ("log_evidence", "log_evidence_error"):
+                v = getattr(smp, f, None)
+                # (a run continued from a checkpoint of ANOTHER precision sums ratios recorded at that precision: not compared)
+                if v is not None and hasattr(v, "dtype") and ns.width_of(v) != w and not upcast_ok:
+                    bad.append(f"{name}.{f}: {ns.ns_of(v)}/{ns.width_of(v)}")
 
         look("returned", res["samples"])
         h = getattr(res["sampler"], "history", None)
@@ -365,6 +375,7 @@ def run(chk: core.Check):
     cells = all_cells(("all",) if quick else ("all", "some", "none"))
     if quick:   # sets WITHOUT the full log-density triple (what SMC / MCMC return): attached evidence is carried, not recomputed
         cells += [c for c in all_cells(("some",)) if c[4][0] == "none"]
+    cells += [c for c in all_cells(("some+floats",)) if c[4][0] == "none" and c[0] != "base"]
     chk.exhaustive = True
     chk.extra["table_cells"] = len(cells)
     for i in range(0, len(cells), 800):
